@@ -47,9 +47,7 @@ fn run_case(c: &Case) -> Verdict {
     let rt = paused_rt();
     let pan0 = panic_count();
     let mut v = rt.block_on(async { run_async(c).await });
-    if let Some(p) = panics_since(pan0).first() {
-        v.fail(format!("{ID}/task/panicked"), p.clone());
-    }
+    attribute_task_panics(&mut v, ID, pan0);
     v
 }
 
@@ -314,6 +312,14 @@ async fn run_async(c: &Case) -> Verdict {
                         let mut tried: HashSet<String> = HashSet::new();
                         let mut sent: HashMap<String, Duration> = HashMap::new();
                         let mut requests = 0usize;
+                        // The budget is MAX_ITERATIONS = 20 rounds of 1..=3 requests.  A round ends only
+                        // after each of its requests was answered or timed out, so between two rounds the
+                        // trace holds a reply to the requester unless a whole round went unanswered:
+                        //   rounds <= bursts + unanswered,
+                        // where a burst is a maximal run of the requester's requests with no reply in between.
+                        let mut bursts = 0usize;
+                        let mut in_burst = false;
+                        let mut answered: HashSet<String> = HashSet::new();
                         for e in &trace {
                             match e {
                                 Ev::Frame { t, from, to, dht, .. } if *from == nodes[i].tid => {
@@ -321,9 +327,17 @@ async fn run_async(c: &Case) -> Verdict {
                                     if let Some(d) = dht {
                                         if d.is_request {
                                             requests += 1;
+                                            if !in_burst {
+                                                bursts += 1;
+                                                in_burst = true;
+                                            }
                                             sent.insert(d.message_id.clone(), *t);
                                         }
                                     }
+                                }
+                                Ev::Frame { to, dht: Some(d), .. } if *to == nodes[i].tid && !d.is_request => {
+                                    in_burst = false;
+                                    answered.insert(d.message_id.clone());
                                 }
                                 Ev::Attempt { from, to, .. } if *from == nodes[i].tid => {
                                     tried.insert(to.clone());
@@ -356,8 +370,14 @@ async fn run_async(c: &Case) -> Verdict {
                                 }
                             }
                         }
-                        if !untried.is_empty() && requests < 57 {
-                            v.fail(format!("{ID}/get/not-found-reported-with-learned-peers-unqueried"), format!("step {step}: node {i} key {ki}: {} of {} learned peers never contacted after {requests} requests", untried.len(), learned.len()));
+                        let unanswered = sent.keys().filter(|m| !answered.contains(*m)).count();
+                        let rounds_upper = bursts + unanswered;
+                        if !untried.is_empty() {
+                            if rounds_upper < 20 {
+                                v.fail(format!("{ID}/get/not-found-reported-with-learned-peers-unqueried"), format!("step {step}: node {i} key {ki}: {} of {} learned peers never contacted after {requests} requests in at most {rounds_upper} rounds", untried.len(), learned.len()));
+                            } else {
+                                v.count("get_budget_exhausted", 1);
+                            }
                         }
                         // a value held by a directly known, responsive peer must be found
                     }
